@@ -34,7 +34,8 @@ SPEC = dict(
           "carry | truncated last message (outer length prefix announces more than follows, then CloseWrite) at drawn points "
           "of the owed amount | early close/reset | message > 8192 B; pauses before/in the middle), dial-back handler (answer | delayed | "
           "reset | close) and request-stream reset stage (never | at the dial-back nonce | after the dial-back answer | after "
-          "the request | after the dial data); dial-data bytes are counted on the wire of the raw client; faults_fired counts the byzantine "
+          "the request | after the dial data); dial-data bytes are counted on the wire of the raw client; cold start drawn last (all clients warmed up | none: the first "
+          "request is the first contact with S, from virtual time 0, under UDP loss | only odd clients); faults_fired counts the byzantine "
           "behaviours that were actually executed; non-trivial = the dialer host dialled at least once and at least two "
           "requests were answered; distinct = distinct (limits, per-request outcome incl. requested/written dial-data bytes "
           "and statuses, dial log, schedule hash)"),
@@ -46,7 +47,8 @@ SPEC = dict(
             "server-reset-in-dial-data-phase", "server-timed-out-waiting-for-dial-data", "honest-flow-ok",
             "long-address-list", "oversized-request-reset", "dial-back-over-connection-of-sibling-request",
             "quic-world", "quic-dial-by-dialer-host", "dial-of-a-webtransport-address", "dial-back-over-quic-or-webtransport",
-            "dial-back-through-the-nat", "dial-to-the-nat-address-without-dial-data"],
+            "dial-back-through-the-nat", "dial-to-the-nat-address-without-dial-data",
+            "cold-client", "request-accepted-at-time-zero-on-first-contact"],
     real=["ALL of the following run as tasks of the seeded scheduler (instrumented)",
           "p2p/protocol/autonatv2 server through New/Start with WithServerRateLimit (rate limiter, amplification policy, "
           "getDialData/readDialData, dialBack) and its client half on S",
